@@ -291,15 +291,45 @@ def check_select(prog: Program, res: Result) -> None:
     res.floor(R, 2)
 
 
+def check_scorer_params(prog: Program, res: Result) -> None:
+    """The caller's scoring parameters (min_instance_peaks, min_line_scores, n_points, ...) are constructor fields of
+    PAFScorer and reach the grouping functions as given: no method re-assigns a constructor field (only the derived
+    init=False fields are computed in __attrs_post_init__).  Pre-converting the fractional min_instance_peaks with a
+    different rounding than assign_connections_to_instances uses drops instances that have enough peaks."""
+    R = "C08-minpeaks"
+    ci = prog.cls(f"{PG}:PAFScorer")
+    given, derived = set(), set()
+    for st in ci.node.body:
+        if isinstance(st, ast.AnnAssign) and isinstance(st.target, ast.Name):
+            v = st.value
+            is_derived = isinstance(v, ast.Call) and any(k.arg == "init" and astq.const_value(k.value) is False for k in v.keywords)
+            (derived if is_derived else given).add(st.target.id)
+    res.ob(R, "min_instance_peaks" in given and "min_line_scores" in given, ci.qualname, "thresholds are constructor fields",
+           f"PAFScorer no longer declares min_instance_peaks / min_line_scores as constructor fields (fields: {sorted(given)})", f"{ci.module.relpath}:{ci.node.lineno}")
+    for fi in ci.methods.values():
+        for st in walk_function(fi.node):
+            tg = astq.stmt_targets(st) if isinstance(st, (ast.Assign, ast.AugAssign, ast.AnnAssign)) else []
+            for t in tg:
+                if isinstance(t, ast.Attribute) and norm(t.value) == "self" and t.attr in given:
+                    res.touch(fi)
+                    res.ob(R, False, fi.qualname, f"self.{t.attr} keeps the caller's value",
+                           f"`{short(st, 70)}` re-assigns the constructor field `{t.attr}` of PAFScorer: the value the caller configured is replaced before it reaches the "
+                           "grouping functions", f"{fi.module.relpath}:{st.lineno}")
+    res.count(R, len(given))
+
+
 def check(prog: Program, res: Result) -> None:
+    check_scorer_params(prog, res)
     c09.check_inf(prog, res, "C08-inf", PG)
     check_filter(prog, res)
     c17.check_use(prog, res, rule="C08-order")
     check_minpeaks(prog, res)
     check_select(prog, res)
     check_partition(prog, res)
-    from . import c03
+    from . import c03, _batch
     res.borrow(c03.check_lines_premises, "C08-lines", prog)
+    # every sample of the batch gets its own entry in every per-sample result (candidates, matches, instances)
+    _batch.check_per_sample_lists(prog, res, "C08-batch", [f"{PG}:score_paf_lines_batch", f"{PG}:match_candidates_batch", f"{PG}:group_instances_batch"], floor=9)
     res.assumptions.append("optimality of the per-edge assignment is scipy's; partition/score-sum invariants over arbitrary inputs are not decided")
 
 
